@@ -46,6 +46,14 @@ QG = "netqasm.util.quantum_gates"
 GRID = [(0, 0), (1, 0), (1, 1), (3, 2), (8, 4), (16, 4), (24, 4), (5, 3), (255, 7), (31, 4)]
 
 
+_PREFIX = ["C07"]
+
+
+def _rid(letter: str) -> str:
+    """rule id of a decomposition rule: C07.<letter>, or the id under which another property evaluates the same rule"""
+    return f"{_PREFIX[0]}.{letter}" if _PREFIX[0] == "C07" else _PREFIX[0]
+
+
 def overrides():
     return {
         "get_rotation_matrix": lambda axis, angle: C.rot_vec(axis, angle),
@@ -130,22 +138,22 @@ def check_single(ctx, classes):
             if debug is False:
                 accepted += 1
             if mn not in C.STATIC:
-                ctx.error("C07.G", f"no reference operator for vanilla gate {mn}")
+                ctx.error(_rid("G"), f"no reference operator for vanilla gate {mn}")
                 break
             try:
                 U = C.unitary_of(repo, ev, gates, {id(q): 0}, 1)
             except C.CircuitProblem as e:
-                ctx.check("C07.G", f"single:{mn}", False, f"the NV expansion of `{mn}`: {e}", c.loc())
+                ctx.check(_rid("G"), f"single:{mn}", False, f"the NV expansion of `{mn}`: {e}", c.loc())
                 continue
             ok = C.equal_up_to_phase(U, C.STATIC[mn])
             adj = C.equal_up_to_phase(U, C.STATIC[mn].conj().T)
             seq = [(C.mnemonic_of(repo, ev, g.cls), g.fields["imm0"].value, g.fields["imm1"].value) for g in gates if g.cls.name != "DebugInstruction"]
             if debug and not ok:
                 continue  # reported for debug=False already
-            ctx.check("C07.G", f"single:{mn}" + (":debug" if debug else ""), ok,
+            ctx.check(_rid("G"), f"single:{mn}" + (":debug" if debug else ""), ok,
                       f"the NV expansion of `{mn}` is {seq}, whose product is not {mn.upper()} up to global phase" + (" (it is the adjoint gate)" if adj and not ok else ""),
                       c.loc(), sample={"gate": mn, "expansion": seq, "equal": ok}, trivial=debug)
-    ctx.anchor("C07.G", "accepted single-qubit gate arms", accepted, 7)
+    ctx.anchor(_rid("G"), "accepted single-qubit gate arms", accepted, 7)
 
 
 def check_rotations(ctx, classes):
@@ -164,7 +172,7 @@ def check_rotations(ctx, classes):
         n_acc += 1
         g = [x for x in gates if x.cls.name != "DebugInstruction"]
         ok = len(g) == 1 and C.mnemonic_of(repo, ev, g[0].cls) == mn and g[0].fields.get("imm0") is n_imm and g[0].fields.get("imm1") is d_imm and g[0].fields.get("reg") is q
-        ctx.check("C07.R", f"rotation:{mn}:forwarded-unchanged", ok,
+        ctx.check(_rid("R"), f"rotation:{mn}:forwarded-unchanged", ok,
                   f"`{mn} q N D` is transpiled to {[(C.mnemonic_of(repo, ev, x.cls), x.fields.get('imm0'), x.fields.get('imm1')) for x in g]}; expected the same-axis NV rotation with N and D forwarded unchanged",
                   c.loc(), sample={"rotation": mn, "forwarded": ok})
         # hardware normalisation: complete table d in 0..4, n in 0..255
@@ -188,9 +196,9 @@ def check_rotations(ctx, classes):
                     continue
                 if not C.equal_up_to_phase(C.rot(axis, n2 * math.pi / 2 ** d2), C.rot(axis, n * math.pi / 2 ** d)):
                     bad = bad or (n, d, f"-> ({n2},{d2}) is a different angle")
-        ctx.check("C07.R", f"rotation:{mn}:hardware-table-same-angle", bad is None,
+        ctx.check(_rid("R"), f"rotation:{mn}:hardware-table-same-angle", bad is None,
                   f"hardware angle normalisation of `{mn}`: first failing (n, d) = {bad}", c.loc(), sample={"rotation": mn, "table": "256 x 5 angles", "first_bad": bad})
-        ctx.check("C07.R", f"rotation:{mn}:hardware-table-encodable", unrep is None,
+        ctx.check(_rid("R"), f"rotation:{mn}:hardware-table-encodable", unrep is None,
                   f"hardware angle normalisation of `{mn}` maps (n, d) = {unrep[:2] if unrep else None} to numerator/denominator {unrep[2:] if unrep else None}, which does not fit the 8-bit fields: "
                   f"the rotation cannot be encoded although the angle is valid (it equals a numerator mod 32 over 2^4)", c.loc(), sample={"rotation": mn, "first_unencodable": unrep})
         # denominators > 4 are refused (raise), never silently mis-scaled
@@ -201,8 +209,8 @@ def check_rotations(ctx, classes):
                 refused = False
             except C.EvalRaise:
                 pass
-        ctx.check("C07.R", f"rotation:{mn}:hardware-denominator-above-4-refused", refused, f"hardware mode accepts a denominator exponent above 4 for `{mn}` (it cannot be expressed over 2^4)", c.loc(), trivial=True)
-    ctx.anchor("C07.R", "accepted rotation arms", n_acc, 3)
+        ctx.check(_rid("R"), f"rotation:{mn}:hardware-denominator-above-4-refused", refused, f"hardware mode accepts a denominator exponent above 4 for `{mn}` (it cannot be expressed over 2^4)", c.loc(), trivial=True)
+    ctx.anchor(_rid("R"), "accepted rotation arms", n_acc, 3)
 
 
 def placements(two_mn):
@@ -218,7 +226,7 @@ def check_two_qubit(ctx, classes):
         if mn == "mov":
             continue
         if mn not in C.STATIC:
-            ctx.error("C07.T", f"no reference operator for {mn}")
+            ctx.error(_rid("T"), f"no reference operator for {mn}")
             continue
         for (i0, i1) in placements(mn):
             for debug in (False, True):
@@ -246,7 +254,7 @@ def check_two_qubit(ctx, classes):
                     problems.append(str(e))
                 if debug and not ok:
                     continue
-                ctx.check("C07.T", f"two-qubit:{mn}:{kind}" + (":debug" if debug else ""), ok,
+                ctx.check(_rid("T"), f"two-qubit:{mn}:{kind}" + (":debug" if debug else ""), ok,
                           f"the NV expansion of `{mn}` (control id {i0}, target id {i1}; {len(gates)} instructions) is not {mn.upper()}"
                           + (" (x) identity on the electron: the borrowed electron is not returned to its prior state or the gate is wrong" if len(ids) == 3 else " up to global phase")
                           + (f"; {problems[0]}" if problems else ""),
@@ -268,10 +276,10 @@ def check_two_qubit(ctx, classes):
                     ok2, why2 = False, str(e)
                 except C.EvalRaise as e:
                     ok2, why2 = False, f"raises {e}"
-                ctx.check("C07.T", f"two-qubit:{mn}:{kind}:again-on-the-same-transpiler", ok2,
+                ctx.check(_rid("T"), f"two-qubit:{mn}:{kind}:again-on-the-same-transpiler", ok2,
                           f"a second `{mn}` ({kind}) mapped by the same transpiler object is not self-contained: {why2}. Between two gates the program may re-point any Q register, "
                           f"so an expansion that relies on a register set up for an earlier gate acts on the wrong qubit", c.loc(), trivial=(len(ids) < 3))
-    ctx.anchor("C07.T", "two-qubit gate placements mapped", n_maps, 8)
+    ctx.anchor(_rid("T"), "two-qubit gate placements mapped", n_maps, 8)
     # MOV
     movs = [c for c in classes["two"] if C.mnemonic_of(repo, ev, c) == "mov"]
     n_mov = 0
@@ -298,10 +306,10 @@ def check_two_qubit(ctx, classes):
                 rho = out.T @ out.conj() if pos[i1] == 1 else out @ out.conj().T
                 fid = float(np.real(psi.conj() @ rho @ psi))
                 worst = min(worst, fid)
-            ctx.check("C07.M", f"mov:{label}", worst > 1 - 1e-9,
+            ctx.check(_rid("M"), f"mov:{label}", worst > 1 - 1e-9,
                       f"`mov` {label}: the emitted circuit applied to |psi>_src |0>_dst leaves the destination with fidelity {worst:.6f} to |psi> (must be 1)", c.loc(),
                       sample={"mov": label, "min_fidelity": round(worst, 9)})
-    ctx.anchor("C07.M", "mov directions mapped", n_mov, 3)
+    ctx.anchor(_rid("M"), "mov directions mapped", n_mov, 3)
 
 
 def eval_matrix(ctx, c, method: str, fields: Dict[str, Any]):
@@ -442,6 +450,19 @@ def run(ctx):
     check_rotations(ctx, classes)
     check_two_qubit(ctx, classes)
     check_published(ctx)
+
+
+def check_decompositions(ctx, rule: str):
+    """the gate, rotation, two-qubit and MOV expansions evaluated under another property's rule id (C08: the transpiled program
+    leaves the same quantum state only if every expansion implements its gate)"""
+    _PREFIX[0] = rule
+    try:
+        classes = vanilla_classes(ctx)
+        check_single(ctx, classes)
+        check_rotations(ctx, classes)
+        check_two_qubit(ctx, classes)
+    finally:
+        _PREFIX[0] = "C07"
 
 
 TP = "netqasm/sdk/transpile.py"
